@@ -774,44 +774,48 @@ Qed.
 Lemma sget_cons a v (st : store) n : sget ((a, v) :: st) n = if n =? a then v else sget st n.
 Proof. unfold sget. cbn [lookup]. destruct (n =? a); reflexivity. Qed.
 
-(* set_global(alias, get_global(name)) at a boundary *)
-Lemma bnd_set_name T vm s a src : bnd T vm s -> untainted T src ->
-  (in_layout a (cur vm) = false \/ a = src) ->
-  bnd T (set_name vm a (glookup (gmap vm) src))
-        (mkS ((a, sget (s_store s) src) :: s_store s) (s_heap s) (s_next s)).
+(* set_global at a boundary: both views get the value (8825c3e) *)
+Lemma bnd_set_name T vm s a v : bnd T vm s ->
+  bnd T (set_name vm a v) (mkS ((a, v) :: s_store s) (s_heap s) (s_next s)).
 Proof.
-  intros [A B D E F G H I0 J] Us Ha. constructor; cbn [m_heap m_next s_heap s_next s_store gmap cur snap gidx set_name upd_views frames]; auto.
-  - intros n Hn. unfold glookup. rewrite !sget_cons. destruct (n =? a); [exact (D src Us)|exact (D n Hn)].
-  - intros n Hn. unfold view. cbn [cur gidx gmap set_name upd_views].
+  intros [A B D E F G H I0 J]. unfold set_name, SET_GLOBAL_WRITES_LOADED_SLOT.
+  constructor; cbn [m_heap m_next s_heap s_next s_store gmap cur snap gidx upd_views frames]; auto.
+  - intros n Hn. unfold glookup. rewrite !sget_cons. destruct (n =? a); [reflexivity|exact (D n Hn)].
+  - intros n Hn. unfold view. cbn [cur gidx gmap upd_views].
     pose proof (E n Hn) as Vn. unfold view in Vn. unfold glookup in *. rewrite !sget_cons.
-    destruct (pos_of n (cur vm)) as [i|] eqn:P.
-    + destruct (n =? a) eqn:Ea; [|exact Vn]. apply N.eqb_eq in Ea. subst n.
-      destruct Ha as [Ha|Ha]; [apply in_layout_false in Ha; congruence|]. subst a. exact Vn.
-    + destruct (n =? a); [exact (D src Us)|exact Vn].
+    destruct (pos_of a (cur vm)) as [i|] eqn:Pa.
+    + assert (Hlt : (i <? length (gidx vm))%nat = true).
+      { apply Nat.ltb_lt. pose proof (pos_of_lt _ _ _ Pa). unfold len_ok in H. lia. }
+      rewrite Hlt.
+      destruct (pos_of n (cur vm)) as [j|] eqn:P.
+      * destruct (n =? a) eqn:Ea.
+        -- apply N.eqb_eq in Ea. subst n. rewrite P in Pa. inversion Pa; subst j. apply gnth_set_at_same.
+        -- rewrite gnth_set_at_other; [exact Vn|]. intro Eij. subst j. apply N.eqb_neq in Ea. apply Ea.
+           eapply pos_of_inj; eauto.
+      * destruct (n =? a) eqn:Ea; [|exact Vn]. apply N.eqb_eq in Ea. subst n. congruence.
+    + destruct (pos_of n (cur vm)) as [j|] eqn:P.
+      * destruct (n =? a) eqn:Ea; [|exact Vn]. apply N.eqb_eq in Ea. subst n. congruence.
+      * destruct (n =? a); [reflexivity|exact Vn].
   - intros L vec Hs. discriminate.
   - intro Hne. congruence.
+  - unfold len_ok in *. cbn [cur gidx upd_views].
+    destruct (pos_of a (cur vm)) as [i|]; [|exact H].
+    destruct (i <? length (gidx vm))%nat; [|exact H]. pose proof (length_set_at i v (gidx vm)). lia.
 Qed.
-
 
 Section Steps3.
 Variable C : code.
 Hypothesis WF : wf_code C.
 
-Lemma exports_sim T L : forall es vm s,
-  bnd T vm s -> (es = [] \/ cur vm = L) ->
-  forallb (fun e => negb (in_layout (fst e) L) || (fst e =? snd e)) es = true ->
+Lemma exports_sim T : forall es vm s,
+  bnd T vm s ->
   existsb (fun e => memb (snd e) T) es = false ->
   bnd T (fold_left (fun v e => set_name v (fst e) (glookup (gmap v) (snd e))) es vm)
         (fold_left (fun x e => mkS ((fst e, sget (s_store x) (snd e)) :: s_store x) (s_heap x) (s_next x)) es s).
 Proof.
-  induction es as [|[a src] r IH]; intros vm s B HC Hw Ht; [exact B|].
-  cbn [fold_left fst snd forallb existsb] in *.
-  apply andb_true_iff in Hw as [Hw1 Hw2]. apply orb_false_iff in Ht as [Ht1 Ht2].
-  destruct HC as [HC|HC]; [discriminate|].
-  apply IH; auto.
-  - apply bnd_set_name; auto. apply orb_true_iff in Hw1 as [Hw1|Hw1].
-    + left. rewrite HC. now apply negb_true_iff in Hw1.
-    + right. now apply N.eqb_eq in Hw1.
+  induction es as [|[a src] r IH]; intros vm s B Ht; [exact B|].
+  cbn [fold_left fst snd existsb] in *. apply orb_false_iff in Ht as [Ht1 Ht2].
+  apply IH; auto. rewrite (b_map _ _ _ B src Ht1). now apply bnd_set_name.
 Qed.
 
 Lemma load_modules_sim T fuel : forall ms vm s W,
@@ -824,27 +828,37 @@ Lemma load_modules_sim T fuel : forall ms vm s W,
 Proof.
   induction ms as [|m r IH]; intros vm s W B Hw.
   { cbn. exists vm. auto. }
-  cbn [forallb] in Hw. apply andb_true_iff in Hw as [Hm Hr].
-  unfold wf_munit in Hm. apply andb_true_iff in Hm as [Hm He]. apply andb_true_iff in Hm as [NL Hx].
+  cbn [forallb] in Hw. apply andb_true_iff in Hw as [NL Hr]. unfold wf_munit in NL.
   cbn [load_modules_s load_modules].
-  pose proof (run_unit_sim C WF T fuel vm s W (mu_layout m) (mu_body m) B NL) as H.
-  destruct (exec_s C fuel 1 T (mu_layout m) VNull s W (mu_body m)) as [[[s1 W1] o1] x1].
-  destruct x1; auto.
-  - destruct H as (vm1 & Er & B1 & C1 & Hs). rewrite Er.
+  (* the exports are registered in a state whose two views agree, whether the module ran or not *)
+  assert (REG : forall vm1 s1 W1 o1, bnd T vm1 s1 ->
+    match (if existsb (fun e => memb (snd e) T) (mu_exports m) then (s1, W1, o1, XTaint)
+           else let s2 := fold_left (fun x e => mkS ((fst e, sget (s_store x) (snd e)) :: s_store x) (s_heap x) (s_next x)) (mu_exports m) s1 in
+                let W2 := map fst (mu_exports m) ++ W1 in
+                let '(s3, W3, out2, st2) := load_modules_s C fuel T s2 W2 r in (s3, W3, o1 ++ out2, st2)) with
+    | (s', W', o, XOk) => exists vm',
+        (let '(vm4, out2, s2) := load_modules C fuel (fold_left (fun v e => set_name v (fst e) (glookup (gmap v) (snd e))) (mu_exports m) vm1) r in (vm4, o1 ++ out2, s2)) = (vm', o, SOk) /\ bnd T vm' s'
+    | (s', W', o, XErr) => exists vm',
+        (let '(vm4, out2, s2) := load_modules C fuel (fold_left (fun v e => set_name v (fst e) (glookup (gmap v) (snd e))) (mu_exports m) vm1) r in (vm4, o1 ++ out2, s2)) = (vm', o, SErr) /\ bnd (W' ++ T) vm' s'
+    | _ => True
+    end).
+  { intros vm1 s1 W1 o1 B1.
     destruct (existsb (fun e => memb (snd e) T) (mu_exports m)) eqn:Et; [exact I|].
-    (* the explicit sync before the export registration is redundant: the unit's Return already synced *)
-    set (vm2 := if MODULE_SYNCS_BEFORE_EXPORTS then sync_loaded vm1 else vm1).
-    assert (B2 : bnd T vm2 s1) by (unfold vm2; destruct MODULE_SYNCS_BEFORE_EXPORTS; [now apply bnd_sync_loaded|exact B1]).
-    assert (HC : mu_exports m = [] \/ cur vm2 = mu_layout m).
-    { destruct (mu_exports m) as [|e0 er]; [now left|right].
-      destruct C1 as [E|E]; [|unfold vm2; destruct MODULE_SYNCS_BEFORE_EXPORTS; exact E]. rewrite E in Hx. cbn in Hx. discriminate. }
-    pose proof (exports_sim T (mu_layout m) (mu_exports m) vm2 s1 B2 HC He Et) as B3.
-    specialize (IH _ _ (map fst (mu_exports m) ++ W1) B3 Hr).
+    pose proof (exports_sim T (mu_exports m) vm1 s1 B1 Et) as B3.
+    specialize (IH _ _ (map fst (mu_exports m) ++ W1) B3 Hr). cbv zeta.
     destruct (load_modules_s C fuel T _ (map fst (mu_exports m) ++ W1) r) as [[[s3 W3] o3] x3].
     destruct x3; auto.
     + destruct IH as (vm4 & E4 & B4). rewrite E4. eauto.
-    + destruct IH as (vm4 & E4 & B4). rewrite E4. eauto.
-  - destruct H as (vm1 & Er & B1). rewrite Er. eauto.
+    + destruct IH as (vm4 & E4 & B4). rewrite E4. eauto. }
+  destruct (mu_run m).
+  - pose proof (run_unit_sim C WF T fuel vm s W (mu_layout m) (mu_body m) B NL) as H.
+    destruct (exec_s C fuel 1 T (mu_layout m) VNull s W (mu_body m)) as [[[s1 W1] o1] x1].
+    destruct x1; auto.
+    + destruct H as (vm1 & Er & B1 & C1 & Hs). rewrite Er. rewrite andb_true_r.
+      (* the explicit sync before the export registration is redundant: the unit's Return already synced *)
+      apply REG. destruct MODULE_SYNCS_BEFORE_EXPORTS; [now apply bnd_sync_loaded|exact B1].
+    + destruct H as (vm1 & Er & B1). rewrite Er. eauto.
+  - rewrite andb_false_r. apply (REG vm s W [] B).
 Qed.
 
 Definition drel (d : dstate) (x : xstate) : Prop :=
@@ -857,7 +871,7 @@ Lemma step_sim fuel d x st : drel d x -> wf_step st = true ->
   | _ => True
   end.
 Proof.
-  intros (B & Ek & Em) Hw. destruct st as [imports compiles L body newmut imported|n nargs arg].
+  intros (B & Ek & Em) Hw. destruct st as [imports compiles L body newmut imported|n nargs arg|n v].
   - (* a REPL input *)
     cbn [wf_step] in Hw. apply andb_true_iff in Hw as [NL Hi].
     cbn [xstep mstep]. unfold HOST_CALL_CHECKS_ARITY_FIRST, REPL_CLEARS_FRAMES_FIRST, REPL_RECORDS_IMPORTS_AFTER_COMPILE, RUN_FAST_UNWINDS_ON_ERROR.
@@ -908,6 +922,10 @@ Proof.
         apply sim_bnd_fail; [now apply sim_with_frames|].
         cbn [frames with_frames]. rewrite Fe. now apply unwind_ext.
     + destruct (negb (ar =? nargs)); exists d; split; try reflexivity; split; auto.
+  - (* the host sets a global by name *)
+    cbn [xstep mstep]. eexists. split; [reflexivity|].
+    split; [|split]; cbn [d_vm d_known d_mut x_s x_taint x_known x_mut]; auto.
+    now apply bnd_set_name.
 Qed.
 
 (* THE refinement: whenever the session is specified (no name whose value a failed step left
@@ -1031,7 +1049,7 @@ Variable C : code.
 Hypothesis WF : wf_code C.
 
 Definition import_free (st : step) : bool :=
-  match st with SInput [] _ _ _ _ _ => true | SInput _ _ _ _ _ _ => false | SHost _ _ _ => true end.
+  match st with SInput [] _ _ _ _ _ => true | SInput _ _ _ _ _ _ => false | SHost _ _ _ => true | SSet _ _ => true end.
 
 (* a step that fails (rejected input, run-time error in an input or in a host call): every name that
    is still specified afterwards has the value it had before the step *)
@@ -1039,7 +1057,7 @@ Lemma xstep_fail_frame fuel x st x' o : import_free st = true ->
   xstep C fuel x st = (x', o, XErr) ->
   forall n, untainted (x_taint x') n -> sget (s_store (x_s x')) n = sget (s_store (x_s x)) n.
 Proof.
-  intros Hi H n Hn. destruct st as [imports compiles L body nm im|g nargs arg].
+  intros Hi H n Hn. destruct st as [imports compiles L body nm im|g nargs arg|g v]; [| |cbn [xstep] in H; discriminate].
   - destruct imports; [|discriminate]. cbn [xstep load_modules_s] in H.
     destruct compiles; cbn [negb] in H; [|inversion H; subst; reflexivity].
     destruct (exec_s C fuel 1 (x_taint x) L VNull (x_s x) [] body) as [[[s2 W2] o2] x2] eqn:E.
@@ -1121,7 +1139,7 @@ Definition ex_session : list step :=
     SInput [] true [Some 4; Some 1] [IOut 77; ICall (CGlobal 4) 1 None; IOut 99] [] [];   (* boom fails after partial effects *)
     SInput [] false [Some 1] [IPrint 1 0] [] [];         (* rejected at compile time *)
     SHost 2 1 VNull;                                    (* bump again -> 10 *)
-    SInput [mkMU [Some 8; Some 1] [IDef 8 10] [(7, 8); (8, 8)]] true [Some 7; Some 1]
+    SInput [mkMU true [Some 8; Some 1] [IDef 8 10] [(7, 8); (8, 8)]] true [Some 7; Some 1]
            [ICall (CGlobal 7) 1 None; IPrint 1 0] [] [7] ].  (* needs m as q; q.bump2(_); print counter *)
 
 Lemma ex_session_facts :
